@@ -217,27 +217,29 @@ def check(ctx):
         ok_all = bool(draws)
         for d in draws:
             # parent expression: <draw> * scale + offset
-            parent = None
+            parent = scale_e = off_e = None
             for n in ast.walk(f.node):
-                if isinstance(n, ast.BinOp) and isinstance(n.op, ast.Add) and isinstance(n.left, ast.BinOp) and isinstance(n.left.op, ast.Mult) and n.left.left is d:
-                    parent = n
+                if isinstance(n, ast.BinOp) and isinstance(n.op, ast.Add):
+                    for mul, other in ((n.left, n.right), (n.right, n.left)):
+                        if isinstance(mul, ast.BinOp) and isinstance(mul.op, ast.Mult) and (mul.left is d or mul.right is d):
+                            parent, off_e, scale_e = n, other, (mul.right if mul.left is d else mul.left)
             if parent is None:
                 ok_all = False
                 continue
             bb = terms.Builder(None, None, {})
             terms.prime(bb, f.node, parent, take_if=lambda t: t == "compensate")
-            scale_c = bb.t(parent.left.right)
-            off = bb.t(parent.right)
+            scale_c = bb.t(scale_e)
+            off = bb.t(off_e)
             bb2 = terms.Builder(None, None, {})
             terms.prime(bb2, f.node, parent, take_if=None)
-            scale_n = bb2.t(parent.left.right)
+            scale_n = bb2.t(scale_e)
             want_c = specs.spec_term(f"(1 / inputs) * (1000.0 / step_time) - ({R})")
             want_n = specs.spec_term("(1 / inputs) * (1000.0 / step_time)")
             want_off = specs.spec_term(R)
             idx_ok = True
-            if isinstance(parent.left.right, ast.Subscript):
+            if isinstance(scale_e, ast.Subscript):
                 scale_c = scale_n = None   # masked online re-draw: inputs[spikes] (checked by C19.e); compare the underlying name
-                nm = parent.left.right.value
+                nm = scale_e.value
                 scale_c, scale_n = bb.t(nm), bb2.t(nm)
             ok = nf.equal(scale_c, want_c) and nf.equal(scale_n, want_n) and nf.equal(off, want_off)
             ok_all = ok_all and ok
